@@ -221,18 +221,22 @@ pub fn encode_expr(ops: &[EOp], ui: usize, cfg: &Cfg, pos: Option<&BTreeMap<Targ
         }
         w.buf
     };
-    let sizes: Vec<usize> = ops.iter().map(|o| enc_one(o, 0).len()).collect();
+    // every operation encoded once (nested expressions would otherwise be encoded 2^depth times); only branches are
+    // encoded again, with their displacement
+    let first: Vec<Vec<u8>> = ops.iter().map(|o| enc_one(o, 0)).collect();
     let mut starts = vec![0usize];
-    for s in &sizes {
-        starts.push(starts.last().unwrap() + s);
+    for b in &first {
+        starts.push(starts.last().unwrap() + b.len());
     }
     let mut out = Vec::new();
     for (i, op) in ops.iter().enumerate() {
-        let disp = match op {
-            EOp::Branch(t, _) => (starts[(*t).min(ops.len())] as i64 - starts[i + 1] as i64) as i16,
-            _ => 0,
-        };
-        out.extend(enc_one(op, disp));
+        match op {
+            EOp::Branch(t, _) => {
+                let disp = (starts[(*t).min(ops.len())] as i64 - starts[i + 1] as i64) as i16;
+                out.extend(enc_one(op, disp));
+            }
+            _ => out.extend_from_slice(&first[i]),
+        }
     }
     out
 }
@@ -882,12 +886,22 @@ pub fn gen_fdwarf(ch: &mut Choices, o: &GenOpts) -> FDwarf {
                     7 if nfiles > 0 => (ch.pick(&[0x3au16, 0x58]), FVal::FileIndex(if version >= 5 && ch.chance(90) { F_IMPLICIT_CONST } else { ch.pick(&[F_DATA1, F_UDATA, F_DATA2]) }, if version >= 5 { ch.below(nfiles) as u64 } else { ch.below(nfiles + 1) as u64 })),
                     8 => (0x3b, FVal::Const(ch.pick(&[F_DATA1, F_DATA2, F_UDATA, F_SDATA]), ch.below(120) as u64)),
                     9 | 10 => {
-                        let ops = gen_ref_expr(ch, &cfg, ui, &mut same, &mut any, 0);
+                        let mut ops = gen_ref_expr(ch, &cfg, ui, &mut same, &mut any, 0);
+                        if ch.chance(5) {
+                            // DW_OP_entry_value nested up to and just beyond the depth the converter supports (32), with
+                            // a reference innermost
+                            let k = ch.pick(&[31usize, 32, 32, 33]);
+                            let mut inner = vec![EOp::Call(same(ch), false), EOp::Plain(MOp::Lit(1))];
+                            for _ in 0..k {
+                                inner = vec![EOp::EntryValue(inner)];
+                            }
+                            ops = inner;
+                        }
                         (ch.pick(&[0x02u16, 0x40, 0x38]), FVal::Expr(ops, version >= 4))
                     }
                     11 if !locs.is_empty() => (0x02, FVal::Locs(ch.below(locs.len()), ch.chance(100))),
                     12 if !ranges.is_empty() => (0x55, FVal::Ranges(ch.below(ranges.len()), ch.chance(100))),
-                    13 => (0x3c, if version >= 4 && ch.bool() { FVal::FlagPresent } else { FVal::Flag(true) }),
+                    13 => (ch.pick(&[0x3cu16, 0x3f, 0x3c]), if version >= 4 && ch.bool() { FVal::FlagPresent } else { FVal::Flag(true) }),
                     14 => (
                         0x1c,
                         match ch.below(5) {
